@@ -543,12 +543,14 @@ Proof. vm_compute. repeat split. Qed.
 (* known finding C11-renamed-filters-collapse: emb~1 >= 3 and emb~2 >= 3 become equal copies, the second is not collected *)
 Definition wC_f1 : filt := {| f_col := "emb~1"; f_type := FMin; f_par := w_value 3 |}.
 Definition wC_f2 : filt := {| f_col := "emb~2"; f_type := FMin; f_par := w_value 3 |}.
+Definition wC_table : table :=
+  [wA_row 0 (Some 10) (Some 5); wA_row 1 (Some 1) (Some 4); wA_row 2 (Some 30) (Some 1); wA_row 3 (Some 40) (Some 2); wA_row 4 None (Some 3)].
 Lemma collapse_refuted_l :
   kf_collapse wA_rename wA_group w_feat (map plain_filter [wC_f1; wC_f2]) = true /\
-  fineb wC_f1 wA_table = true /\ fineb wC_f2 wA_table = true /\
-  w_ids (run_path wA_rename wA_group w_feat ["id"] (map plain_filter [wC_f1; wC_f2]) wA_table) = Some [VInt 0; VInt 1; VInt 2; VInt 3] /\
-  w_ids (run_path wA_rename wA_group w_feat ["id"] (map plain_filter [wC_f2; wC_f1]) wA_table) = Some [VInt 0; VInt 1; VInt 2] /\
-  map (fun r => get r "id") (path_expected (declared wA_group) [wC_f1; wC_f2] wA_table) = [VInt 0; VInt 1; VInt 2].
+  fineb wC_f1 wC_table = true /\ fineb wC_f2 wC_table = true /\
+  w_ids (run_path wA_rename wA_group w_feat ["id"] (map plain_filter [wC_f1; wC_f2]) wC_table) = Some [VInt 0; VInt 2; VInt 3] /\
+  w_ids (run_path wA_rename wA_group w_feat ["id"] (map plain_filter [wC_f2; wC_f1]) wC_table) = Some [VInt 0; VInt 1; VInt 4] /\
+  map (fun r => get r "id") (path_expected (declared wA_group) [wC_f1; wC_f2] wC_table) = [VInt 0].
 Proof. vm_compute. repeat split. Qed.
 
 (* known finding C11-filter-domain-compare-raises *)
